@@ -13,7 +13,15 @@ pub fn float_bits(f: f64) -> String {
 
 /// Encode a deserr Value by walking it through the IntoValue / Sequence / Map traits (consumes it).
 pub fn enc_value<V: IntoValue>(v: Value<V>) -> J {
+    let was = crate::ov::ENCODING.with(|c| c.replace(true));
+    let r = enc_value_inner(v);
+    crate::ov::ENCODING.with(|c| c.set(was));
+    r
+}
+
+fn enc_value_inner<V: IntoValue>(v: Value<V>) -> J {
     match v {
+        Value::String(s) if s == crate::ov::POISON_MARK => rec("poison"),
         Value::Null => rec("null"),
         Value::Boolean(b) => {
             let mut r = rec("bool");
@@ -47,14 +55,14 @@ pub fn enc_value<V: IntoValue>(v: Value<V>) -> J {
         }
         Value::Sequence(seq) => {
             let mut r = rec("seq");
-            let es: Vec<J> = seq.into_iter().map(|x| enc_value(x.into_value())).collect();
+            let es: Vec<J> = seq.into_iter().map(|x| enc_value_inner(x.into_value())).collect();
             r["n"] = json!(es.len());
             r["e"] = J::Array(es);
             r
         }
         Value::Map(m) => {
             let mut r = rec("map");
-            let es: Vec<J> = m.into_iter().map(|(k, x)| json!({"k": k, "v": enc_value(x.into_value())})).collect();
+            let es: Vec<J> = m.into_iter().map(|(k, x)| json!({"k": k, "v": enc_value_inner(x.into_value())})).collect();
             r["n"] = json!(es.len());
             r["e"] = J::Array(es);
             r
